@@ -7,27 +7,96 @@ whenever a blocking call (RE(...), resume, abort, stop, halt) returns with the e
   * every device's last set() call is followed by a stop() call.
   * every subscription a `monitor` message installed on a device (subscribe) has been removed (clear_sub):
     an oracle-only case family (monitors are not in the engine model; those cases are not sent to Coq).
-Flyers and per-call subscriptions are not exercised (the driver has no kickoff support): not covered
-(see manifest_parts/C06.json).
+Flyers, monitor subscriptions with raising devices and per-call / in-plan / permanent subscriptions are exercised by the
+cleanup-ledger family (harness/drivers/cleanup_{cases,driver,terms}.py, model Engine/CleanupLedger.v): the real ledger,
+the outcome of every message and the bookkeeping read after every call must equal the model's; the oracle reads the
+three clauses off the real ledger (kicked-off flyers collected or attempted - finding class C06-a -, monitor
+subscriptions removed, temporary tokens gone when the next call starts, permanent ones kept).
 """
 from harness.props.engine_common import *  # noqa: F401,F403  (impl_batch/nontrivial/describe/... shared by the engine family)
 from harness.props import engine_common as ec
-from harness.drivers import engine_cases_c06, engine_encode
+from harness.drivers import engine_cases_c06, engine_encode, cleanup_cases, cleanup_terms
 
 ID = "C06"
 PROP_FILE = "Props/C06.v"
 THEOREMS = ["C06_clean_when_idle_partial", "C06_clean_when_done", "C06_returns_idle_clean", "C06_idle_transition_clean",
-            "C06_ledger_tracked", "C06_full_refuted"]
-COQ_IMPORTS = ec.COQ_IMPORTS + "\nFrom BV Require Import Proofs.RE_Clean."
+            "C06_ledger_tracked", "C06_full_refuted",
+            # Engine/CleanupLedger.v: flyers, monitor subscriptions, temporary subscriptions
+            "C06_flyers_collected_or_lost", "C06_flyers_collected", "C06_lost_only_by_close", "C06_a_refuted",
+            "C06_monitors_removed", "C06_cleanup_tracked", "C06_temp_tokens_removed", "C06_permanent_kept",
+            "C06_cleanup_ledger_grows", "C06_other_runs_untouched"]
+MODELLED = ec.MODELLED + (
+    " Flyers, monitor subscriptions and temporary subscriptions are modelled separately by hand in Engine/CleanupLedger.v "
+    "(RunBundler._uncollected / _monitor_params / _monitor_suspensions / describe caches, kickoff, collect, backstop_collect, "
+    "monitor, unmonitor, clear_monitors, suspend/restore_monitors, the clearing loop of close_run; RunEngine._kickoff/_complete/"
+    "_collect/_monitor/_unmonitor/_open_run/_close_run key handling, _subscribe/_unsubscribe, _temp_callback_ids, "
+    "_clear_call_cache and the per-call subscriptions of __call__, Dispatcher tokens, the pause block / wake-up, the finally "
+    "block of _run); devices are a fault oracle over call positions. Not modelled there: callbacks raising while a document is "
+    "emitted, Configurable/Stoppable/Pausable flyers and signals, suspenders, rewinding, multi-object collect, declared streams.")
+COQ_IMPORTS = ec.COQ_IMPORTS + ("\nFrom BV Require Import Proofs.RE_Clean.\nFrom BV Require Engine.CleanupLedger.\n"
+                               "Module CL := BV.Engine.CleanupLedger.")
 RULE = ec.RULE + ("; plus C06 cases (harness/drivers/engine_cases_c06.py): 10 stage/set plans (double staging, re-staging, "
                   "unstage in finally, clear_checkpoint, raising plan, handled device error) x requests at `_run` step indices x "
                   "{abort, stop, halt, pause+resume/stop/abort/halt, suspend}, device faults in stage/unstage/set/stop, "
-                  "several calls on one engine, seeded random stage/set plans")
+                  "several calls on one engine, seeded random stage/set plans; plus cleanup-ledger sessions (harness/drivers/"
+                  "cleanup_cases.py, real RunEngine with context_managers=[], fake flyers / monitorable signals / callbacks logging every "
+                  "call and raising at given call positions): 14 plan bodies (kickoff/complete/collect/monitor/unmonitor/subscribe/"
+                  "unsubscribe over several run keys) x 9 endings (completion, plan exception, failed pause, pause then resume/abort/stop/"
+                  "halt, with and without a cleanup block in the plan) x a raising device call at every reachable position; multi-call "
+                  "sessions with per-call subs RE(plan, subs), permanent RE.subscribe, unsubscribes between calls and while paused; "
+                  "seeded random sessions of 1-3 calls with 0-3 faults")
 
 
 def cases(rng, tier):
     extra = engine_cases_c06.gen(rng, tier)
-    return ec.gen_cases(rng, tier) + extra + ec.stagest_variants(extra, 2 if tier == "quick" else 1)
+    return (ec.gen_cases(rng, tier) + extra + ec.stagest_variants(extra, 2 if tier == "quick" else 1)
+            + cleanup_cases.gen(rng, tier))
+
+
+def is_cleanup(case):
+    return case.get("kind") == "cleanup"
+
+
+def _cleanup_chunk(chunk):
+    from harness.drivers import cleanup_driver
+    out = []
+    for c in chunk:
+        try:
+            out.append(cleanup_driver.run_case(c))
+        except Exception as e:  # noqa: BLE001
+            out.append({"log": [], "outs": [], "errors": ["driver crashed: %s: %s" % (type(e).__name__, e)]})
+    return out
+
+
+def impl_batch(cases):
+    """engine-model cases go through the shared (cached) engine driver, cleanup-ledger sessions through
+    harness/drivers/cleanup_driver.py (a fresh real RunEngine per session)"""
+    import json
+    obs = [None] * len(cases)
+    eng = [i for i, c in enumerate(cases) if not is_cleanup(c)]
+    for i, o in zip(eng, ec.impl_batch([cases[i] for i in eng]) if eng else []):
+        obs[i] = o
+    cl = [i for i, c in enumerate(cases) if is_cleanup(c)]
+    todo = [cases[i] for i in cl]
+    if len(todo) > 600:
+        import multiprocessing as mp
+        from harness import core
+        step = 100
+        with mp.get_context("spawn").Pool(min(core.NCPU, 8)) as pool:
+            res = [o for ch in pool.map(_cleanup_chunk, [todo[k:k + step] for k in range(0, len(todo), step)]) for o in ch]
+    else:
+        res = _cleanup_chunk(todo)
+    for i, o in zip(cl, json.loads(json.dumps(res))):
+        obs[i] = o
+    return obs
+
+
+def nontrivial(case, obs):
+    return cleanup_terms.nontrivial(case, obs) if is_cleanup(case) else ec.nontrivial(case, obs)
+
+
+def describe(case):
+    return cleanup_terms.describe(case) if is_cleanup(case) else ec.describe(case)
 
 
 # ----------------------------------------------------------------------------- the ledger
@@ -122,6 +191,8 @@ def problems(obs):
 
 
 def oracle(case, obs):
+    if is_cleanup(case):
+        return cleanup_terms.oracle(case, obs)
     if obs.get("errors"):
         return "driver: " + str(obs["errors"][0])[:200]
     ps = problems(obs)
@@ -132,7 +203,10 @@ def oracle(case, obs):
 
 
 def finding(case, obs):
-    """b: the only deviation is the counting clause and some device was staged while already staged"""
+    """b: the only deviation is the counting clause and some device was staged while already staged;
+    a (cleanup-ledger sessions): the only deviation is a flyer never collected that was uncollected in a run the plan closed"""
+    if is_cleanup(case):
+        return cleanup_terms.finding(case, obs)
     if obs.get("errors"):
         return None
     ps = problems(obs)
@@ -161,7 +235,10 @@ def coq_ledger(obs):
 def coq_term(case, obs):
     """the shared correspondence term (the model reproduces every observation of the real run, device
     calls included) and, on the same ledger, the Coq predicates of Proofs/RE_Clean.v against their
-    Python mirrors used by oracle()/finding(): the finding class and cleanliness of the final ledger"""
+    Python mirrors used by oracle()/finding(): the finding class and cleanliness of the final ledger;
+    cleanup-ledger sessions: Engine/CleanupLedger.v run on the processed ops and the fault positions (cleanup_terms)"""
+    if is_cleanup(case):
+        return cleanup_terms.coq_term(case, obs)
     t = ec.coq_term(case, obs)
     if t is None:
         return None
